@@ -59,7 +59,10 @@ type Sched struct {
 	Aborted  bool
 	Deadlock bool
 	Diverged string
-	Log      []string
+	// Fault is an invariant of the shimmed primitives broken by the code under test (e.g. one object put into a
+	// pool twice); the harnesses report it as a violation of the execution in which it happened
+	Fault string
+	Log   []string
 	Verbose  bool
 	closed   bool
 }
